@@ -48,8 +48,7 @@ func main() {
 			}
 			for _, k := range keys {
 				fn := w.Funcs[k]
-				e := NewEnc(w, fn, w.CS.Funcs[k])
-				e.EncodeTop()
+				e := encodeFunction(w, fn, w.CS.Funcs[k])
 				rs := checkFunction(e, tier, 0, *keep)
 				fmt.Printf("== %s: %d obligations, %d lines\n", shortFuncName(k), len(e.obls), len(e.lines))
 				for _, p := range e.problems {
